@@ -127,11 +127,10 @@ def run(v, tier, seed):
     jobs = []
     # W=8: the complete machine (all 256 values, closed under every action)
     jobs.append((8, "SUBSET (0..7)", ""))
-    if thorough:
-        jobs.append((16, "SUBSET (0..15)", ""))
-    else:
-        sample = [set(i for i in range(16) if (x >> i) & 1) for x in rnd.sample(range(65536), 1024)]
-        jobs.append((16, "{" + ",".join(tla_set(s) for s in patterns(16, rnd, 0) + sample) + "}", "BOUNDED"))
+    # W=16: one step from a seeded sample of values (the complete 16-bit machine with emission
+    # of every transition needs more than 40 minutes of TLC: thorough takes 8192 values instead)
+    sample = [set(i for i in range(16) if (x >> i) & 1) for x in rnd.sample(range(65536), 8192 if thorough else 1024)]
+    jobs.append((16, "{" + ",".join(tla_set(s) for s in patterns(16, rnd, 0) + sample) + "}", "BOUNDED"))
     for w in (32, 64):
         ps = patterns(w, rnd, 256 if thorough else 64)
         jobs.append((w, "{" + ",".join(tla_set(s) for s in ps) + "}", "BOUNDED"))
@@ -267,7 +266,7 @@ def run(v, tier, seed):
           traces_validated_against_impl=len(vectors) * len(bins) + traces,
           rule="one vector per distinct (width, value) pre-state explored by TLC, each carrying get/set0/set1 of every index, "
                "visit order and equality; distinct = distinct pre-states; W=8 complete, W=16 %s, W=32/64 walking-one/zero, "
-               "complements, alternating and seeded random values" % ("complete" if thorough else "seeded sample of 1024 + patterns"),
+               "complements, alternating and seeded random values" % ("seeded sample of 8192 + patterns" if thorough else "seeded sample of 1024 + patterns"),
           samples=[{"w": x["w"], "val": x["val"], "get_0_7": x["get"][:8], "set1_of_idx3": x["set1"][3], "set0_of_idx3": x["set0"][3]} for x in (vectors[:1] + vectors[-1:])],
           exhaustive=False)
     v.assumptions += ["host is little-endian (underlying value bytes compared as little-endian digits)",
